@@ -292,7 +292,7 @@ def judge_optimize(ref, op, sol, raised, model, stats, kf_rc_factor2):
 
 
 def judge_slim(ref, op, value, raised, model, stats):
-    from cobra.exceptions import OPTLANG_TO_EXCEPTIONS_DICT, OptimizationError
+    from cobra.exceptions import OptimizationError
 
     r = solve_ref(ref)
     if r is None:
@@ -304,7 +304,12 @@ def judge_slim(ref, op, value, raised, model, stats):
     if raised is not None:
         if res.status == "optimal" or not isinstance(raised, OptimizationError) or not (has_ev and ev is None):
             raise Violation("fba_verdict", {"what": "slim_optimize raised", "exception": repr(raised)[:200], "truth": res.status})
-        want = OPTLANG_TO_EXCEPTIONS_DICT.get(model.solver.status, OptimizationError)
+        # the documented "matching exception" per solver status, written down here - not read from the library's own table, which is
+        # part of what is being checked
+        import cobra.exceptions as ce
+
+        want = {"infeasible": ce.Infeasible, "unbounded": ce.Unbounded, "feasible": ce.FeasibleButNotOptimal,
+                "undefined": ce.UndefinedSolution}.get(model.solver.status, OptimizationError)
         if type(raised) is not want:
             raise Violation("fba_verdict", {"what": "exception class does not match the solver status",
                                             "status": model.solver.status, "exception": type(raised).__name__})
